@@ -72,7 +72,7 @@ def _conv(series, col):
     if col in ("id", "iv", KCOL):
         return [int(x) for x in series.astype("int64").tolist()]
     if col == "fv":
-        return [float(x) for x in series.astype("float64").tolist()]
+        return [("nan" if x != x else float(x)) for x in series.astype("float64").tolist()]
     if col == "sv":
         return [str(x) for x in series.tolist()]
     if series.dtype == bool:
@@ -94,7 +94,7 @@ class Source:
     def __init__(self, df):
         self.df = df
         self.vals = {c: _conv(df[c], c) for c in df.columns}
-        self.lookup = {c: {v: i for i, v in enumerate(self.vals[c])} for c in INJ if c in df.columns}
+        self.lookup = {c: {v: i for i, v in enumerate(self.vals[c])} for c in INJ if c in df.columns and "nan" not in self.vals[c]}
 
     def project(self, fr, src_of):
         """[cols, ids, index, veq] of a delivered frame.  src_of: delivered name -> source column (or KCOL)."""
@@ -155,6 +155,10 @@ def read_case_layout(case):
     """Concrete columns for the abstract a, b, c of the model, physical order, request, delivered names."""
     sep = case.get("sep", "\t")
     df = make_table(case["R"], case["tseed"], comma_ok=(sep == "\t"))
+    if case.get("nan_fv") and len(df):
+        # missing values: every third cell of the float column is empty (text) / null (Parquet); the column then no longer
+        # identifies a row, the request holds another identifying column
+        df.loc[df.index[::3], "fv"] = np.nan
     phys = list(df.columns)
     if "abc" in case:
         abc = case["abc"]
@@ -318,7 +322,13 @@ def run_write(case):
                 sub = df.iloc[lo:lo + k]
                 events.append({"op": "append", "ids": [int(x) for x in sub["id"].tolist()]})
                 if not buffered or kind == "frame":
-                    w.append_data(sub.reset_index(drop=True) if (a + case["tseed"]) % 2 else sub)
+                    blk = sub.reset_index(drop=True) if (a + case["tseed"]) % 2 else sub.copy()
+                    w.append_data(blk)
+                    if (a + case["tseed"]) % 3 == 0 and len(blk):
+                        # the producer re-uses its block: after the append the frame is overwritten in place (a writer that
+                        # only kept a reference to it would write these values instead of the appended ones)
+                        blk.loc[:, "id"] = -7
+                        blk.loc[:, "iv"] = -7
                 elif kind == "dicts":
                     recs = sub.to_dict(orient="records")
                     w.append_data(recs[0] if (k == 1 and (a + case["tseed"]) % 2) else recs)
@@ -397,7 +407,8 @@ def random_reader_cases(rng, count, nmax):
                 "split": int(rng.integers(1, 3)), "cols": [], "tseed": int(rng.integers(0, 2 ** 20)),
                 "suffix": CSV_SUFFIXES[int(rng.integers(0, len(CSV_SUFFIXES)))],
                 "sep": "," if rng.random() < 0.2 else "\t",
-                "right": ["csv", "parquet", "frame"][int(rng.integers(0, 3))], "rg2": int(rng.integers(1, R + 3))}
+                "right": ["csv", "parquet", "frame"][int(rng.integers(0, 3))], "rg2": int(rng.integers(1, R + 3)),
+                "nan_fv": bool(i % 4 == 1)}
         # request: None or a random ordered subset of the delivered names holding an identifying column
         df, phys, abc, _ = read_case_layout(case)
         ren = {abc[0]: abc[0].upper() + "_m", abc[2]: abc[2].upper() + "_m"} if "mapped" in case["wrap"] else {}
@@ -407,9 +418,9 @@ def random_reader_cases(rng, count, nmax):
         else:
             k = int(rng.integers(1, len(names) + 1))
             req = [names[int(j)] for j in rng.permutation(len(names))[:k]]
-            injn = [ren.get(x, x) for x in INJ]
+            injn = [ren.get(x, x) for x in INJ if not (case.get("nan_fv") and x == "fv")]
             if not set(req) & set(injn):
-                req.insert(int(rng.integers(0, len(req) + 1)), injn[int(rng.integers(0, 4))])
+                req.insert(int(rng.integers(0, len(req) + 1)), injn[int(rng.integers(0, len(injn)))])
             case["req"] = req
         out.append(case)
     return out
